@@ -175,6 +175,49 @@ def arrays(case):
     return big, F, FJ, U
 
 
+NUMTYPES = ['float', 'int', 'bool', 'np.int32', 'np.int64', 'np.float16', 'np.float32', 'np.float64']
+
+
+def typed(v, tag):
+    """the value handed to the implementation: `v` in the numeric type named by `tag`"""
+    if v is None:
+        return None
+    t = {'float': float, 'int': int, 'bool': bool, 'np.int32': np.int32, 'np.int64': np.int64,
+         'np.float16': np.float16, 'np.float32': np.float32, 'np.float64': np.float64}[tag or 'float']
+    return t(v)
+
+
+def noise_arg(case):
+    return typed(case['noise'], case.get('ntype'))
+
+
+def noise_value(case):
+    """the noise variance as a real number (None = no noise)"""
+    v = noise_arg(case)
+    return None if v is None else float(v)
+
+
+def p_arg(case):
+    """the power vector as handed to set_precoders (None: full_F is given instead)"""
+    if case['P'] is None:
+        return None
+    pt = case.get('ptype') or 'float'
+    if pt == 'list':
+        return [float(x) for x in case['P']]
+    if pt.startswith('scalar:'):
+        return typed(case['P'][0], pt[7:])
+    return np.array(case['P'], dtype={'float': float, 'int': int, 'np.int32': np.int32, 'np.float32': np.float32}[pt])
+
+
+def p_values(case):
+    if case['P'] is None:
+        return None
+    a = p_arg(case)
+    if np.ndim(a) == 0:
+        return [float(a)] * case['K']
+    return [float(x) for x in a]
+
+
 def build_channel(case):
     mu, _, _ = _impl()
     K = case['K']
@@ -191,21 +234,21 @@ def build_channel(case):
         ch.init_from_channel_matrix(big.copy(), Nr, Nt, K)
         if case['pl'] is not None:
             ch.set_pathloss(np.array(case['pl'], dtype=float))
-    ch.noise_var = case['noise']
+    ch.noise_var = noise_arg(case)
     return ch
 
 
 def pe_args(case):
     """positional `pe` argument of the ExtInt methods (omitted => the default 1.0)"""
     if case['ext'] and case['pe'] is not None:
-        return (case['pe'],)
+        return (typed(case['pe'], case.get('petype')),)
     return ()
 
 
 def pe_value(case):
     if not case['ext']:
         return 0.0
-    return 1.0 if case['pe'] is None else float(case['pe'])
+    return 1.0 if case['pe'] is None else float(typed(case['pe'], case.get('petype')))
 
 
 def call_guard(fn):
@@ -222,7 +265,11 @@ def run_channel(case, jp):
 
 
 def _run_channel(case, jp):
-    ch = build_channel(case)
+    return eval_channel(build_channel(case), case, jp)
+
+
+def eval_channel(ch, case, jp):
+    """every quantity the channel object `ch` reports for the scenario `case`"""
     _, F, FJ, U = arrays(case)
     Fs = obj(FJ if jp else F)
     Us = obj(U)
@@ -250,42 +297,68 @@ def run_solver(case):
 def _run_solver(case):
     _, ia, _ = _impl()
     ch = build_channel(case)
-    _, F, _, U = arrays(case)
-    K = case['K']
     sol = ia.IASolverBaseClass(ch)
-    if case['P'] is None:
+    sync_solver(sol, case)
+    return eval_solver(sol, build_channel(case), case)
+
+
+def sync_solver(sol, case):
+    """hand the precoders, powers and receive filters of `case` to the solver through its public setters
+    (precoders first, filters last: set_receive_filters is what drops the cached full_W_H)"""
+    _, F, _, U = arrays(case)
+    pa = p_arg(case)
+    if pa is None:
         sol.set_precoders(full_F=obj(F))
+    elif np.ndim(pa) == 0 and not isinstance(pa, list):
+        sol.P = pa
+        sol.set_precoders(F=obj(F))
     else:
-        sol.set_precoders(F=obj(F), P=np.array(case['P'], dtype=float))
+        sol.set_precoders(F=obj(F), P=pa)
     if case.get('set_W'):
         sol.set_receive_filters(W=obj(U))
     else:
         sol.set_receive_filters(W_H=obj([u.conj().T for u in U]))
+
+
+def eval_solver(sol, ch2, case, synced=True):
+    """every quantity the solver reports; `ch2` is the channel object evaluated with the solver's
+    precoders and filters.  None / 'ill-conditioned' when outside the preconditions.
+    `synced=False`: the filters were not handed over again after the last change (the cached full_W_H
+    is whatever the solver holds), so the np.linalg.solve contract is not checked."""
+    _, F, _, U = arrays(case)
+    K = case['K']
+    pv = p_values(case)
     full_F = [np.array(sol.full_F[k], dtype=complex) for k in range(K)]
     blocks = ref_blocks(case)
-    for k in range(K):
-        heq = U[k].conj().T @ blocks['H'][k][k] @ full_F[k]
-        if heq.shape[0] != heq.shape[1] or heq.size == 0:
-            return None
-        sv = np.linalg.svd(heq, compute_uv=False)
-        if sv[-1] <= 1e-6 * sv[0] or sv[0] == 0:
-            return None
-    wh = [np.array(sol.full_W_H[k], dtype=complex) for k in range(K)]
-    w = [np.array(sol.full_W[k], dtype=complex) for k in range(K)]
+    if synced:
+        for k in range(K):
+            heq = U[k].conj().T @ blocks['H'][k][k] @ full_F[k]
+            if heq.shape[0] != heq.shape[1] or heq.size == 0:
+                return None
+            sv = np.linalg.svd(heq, compute_uv=False)
+            if sv[-1] <= 1e-6 * sv[0] or sv[0] == 0:
+                return None
+    try:
+        wh = [np.array(sol.full_W_H[k], dtype=complex) for k in range(K)]
+        w = [np.array(sol.full_W[k], dtype=complex) for k in range(K)]
+    except np.linalg.LinAlgError:
+        return None
+    if not all(np.all(np.isfinite(x)) for x in wh):
+        return None
     # full_W_H inverts the equivalent channel, i.e. it zero-forces the other streams of the own user: with
     # nothing else in the denominator (single user, no noise, no external interference) the denominator is
     # 0 up to the rounding of np.linalg.solve — x/0 or x/rounding-noise.  That is the case the property
     # excludes; the margin keeps the comparison away from it (never compare near-ties).
-    fullF_h = [np.asarray(F[k], dtype=complex) * (1.0 if case['P'] is None else math.sqrt(case['P'][k]))
-               for k in range(K)]
-    fp = fp_streams(case, 'ic', fullF_h, [x.conj().T for x in wh], pe_value(dict(case, pe=None)), case['noise'])
+    fullF_h = [np.asarray(F[k], dtype=complex) * (1.0 if pv is None else math.sqrt(pv[k])) for k in range(K)]
+    fp = fp_streams(case, 'ic', fullF_h, [x.conj().T for x in wh], pe_value(dict(case, pe=None)), noise_value(case))
     if any(not (d > 1e-6 * (sg + d)) for sg, d in fp.values()):
         return 'ill-conditioned'
     contract = 0.0
-    for k in range(K):
-        heq = U[k].conj().T @ blocks['H'][k][k] @ full_F[k]
-        contract = max(contract, float(np.abs(heq @ wh[k] - U[k].conj().T).max()) /
-                       max(1.0, float(np.abs(U[k]).max())))
+    if synced:
+        for k in range(K):
+            heq = U[k].conj().T @ blocks['H'][k][k] @ full_F[k]
+            contract = max(contract, float(np.abs(heq @ wh[k] - U[k].conj().T).max()) /
+                           max(1.0, float(np.abs(U[k]).max())))
     s = call_guard(lambda: sol.calc_SINR())
     out = {'full_F': full_F, 'full_W_H': wh, 'full_W': w, 'contract': contract, 'sinr': s}
     if s[0] == 'ok':
@@ -294,7 +367,6 @@ def _run_solver(case):
         out['cap'] = float(sol.calc_sum_capacity())
     out['Q'] = [sol.calc_Q(k) for k in range(K)]
     # the channel object evaluated with the solver's precoders and filters (default pe)
-    ch2 = build_channel(case)
     out['chan'] = call_guard(lambda: ch2.calc_SINR(obj(full_F), obj(w)))
     if out['chan'][0] == 'ok':
         out['chan'] = ('ok', [[float(x) for x in r] for r in out['chan'][1]])
@@ -395,8 +467,12 @@ def fp_Q(case, variant, F, pe, noise):
 
 def variant_tag(case):
     tag = 'extint' if case['ext'] else 'plain'
+    if 'noise' not in case:          # a session: only the class of the channel object is known
+        return tag
     if case.get('dtype', 'complex') != 'complex':
         tag += ':' + case['dtype']
+    if case.get('ntype') not in (None, 'float') and case['noise'] is not None:
+        tag += ':noise-' + case['ntype']
     return tag
 
 
@@ -420,15 +496,20 @@ def compare_streams(case, got, fp):
 
 # ------------------------------------------------------------------ oracles
 def o_channel(case, jp):
+    got, q = run_channel(case, jp)
+    return judge_channel(case, jp, got, q)
+
+
+def judge_channel(case, jp, got, q):
+    """what a channel object reported (`got`, `q`) for the scenario `case` against first principles"""
     _, F, FJ, U = arrays(case)
     Fc = [np.asarray(x, dtype=complex) for x in (FJ if jp else F)]
     Uc = [np.asarray(x, dtype=complex) for x in U]
-    got, q = run_channel(case, jp)
-    fp = fp_streams(case, 'jp' if jp else 'ic', Fc, Uc, pe_value(case), case['noise'])
+    fp = fp_streams(case, 'jp' if jp else 'ic', Fc, Uc, pe_value(case), noise_value(case))
     r = compare_streams(case, got, fp)
     if r is not None:
         return (r[0] + ':' + variant_tag(case), r[1])
-    qref = fp_Q(case, 'jp' if jp else 'ic', Fc, pe_value(case), case['noise'])
+    qref = fp_Q(case, 'jp' if jp else 'ic', Fc, pe_value(case), noise_value(case))
     for k in range(case['K']):
         Q = np.asarray(q[k])
         sc = max(1.0, float(np.abs(qref[k]).max()) if qref[k].size else 1.0)
@@ -481,20 +562,23 @@ def o_scale(case):
 def o_solver(case):
     """the IA solver: first principles (its own full_F / full_W_H), agreement with the
     channel object, dB and sum capacity"""
-    out = run_solver(case)
+    return judge_solver(case, run_solver(case))
+
+
+def judge_solver(case, out):
     if out is None or out == 'ill-conditioned':
         return None
     tag = variant_tag(case)
     K = case['K']
     # the precoders with the transmit power applied, formed by the harness: stream powers scale with P_k
     _, F, _, _ = arrays(case)
-    fullF = [np.asarray(F[k], dtype=complex) * (1.0 if case['P'] is None else math.sqrt(case['P'][k]))
-             for k in range(K)]
+    pv = p_values(case)
+    fullF = [np.asarray(F[k], dtype=complex) * (1.0 if pv is None else math.sqrt(pv[k])) for k in range(K)]
     for k in range(K):
         if not mat_close(out['full_F'][k], fullF[k], rtol=1e-12):
             return ('full_F-not-sqrtP-scaled:' + tag, 'user %d' % k)
     Uc = [out['full_W_H'][k].conj().T for k in range(K)]
-    fp = fp_streams(case, 'ic', fullF, Uc, pe_value(dict(case, pe=None)), case['noise'])
+    fp = fp_streams(case, 'ic', fullF, Uc, pe_value(dict(case, pe=None)), noise_value(case))
     r = compare_streams(case, out['sinr'], fp)
     if r is not None:
         return (r[0] + ':' + tag, r[1])
@@ -514,7 +598,7 @@ def o_solver(case):
         cap = math.fsum(math.log2(1.0 + x) for x in flat)
         if not core.close(out['cap'], cap, rtol=1e-12):
             return ('capacity:' + tag, 'reported %.17g, sum log2(1+SINR) %.17g' % (out['cap'], cap))
-    qref = fp_Q(case, 'ic', fullF, pe_value(dict(case, pe=None)), case['noise'])
+    qref = fp_Q(case, 'ic', fullF, pe_value(dict(case, pe=None)), noise_value(case))
     for k in range(K):
         if not mat_close(out['Q'][k], qref[k]):
             return ('Q-not-sum-of-links:' + tag, 'solver.calc_Q(%d)' % k)
@@ -579,10 +663,10 @@ class Gen:
             return self.np.randint(-3, 4, size=(m, n)).astype(complex)
         return (self.np.randn(m, n) + 1j * self.np.randn(m, n)) / math.sqrt(2.0)
 
-    def case(self, kind=None, ext=None, solver_ok=False, K=None, dims=None):
+    def case(self, kind=None, ext=None, solver_ok=False, K=None, dims=None, NtE=None, retype=True):
         rng = self.rng
         big_dims = self.tier != 'quick' and rng.chance(0.15)
-        kind = kind or rng.choice(['gauss', 'gauss', 'gauss', 'gint', 'wide'])
+        kind = kind or rng.choice(['gauss', 'gauss', 'gauss', 'gint', 'gint', 'wide', 'wide', 'rint'])
         exact = kind in ('gint', 'rint')
         if K is None:
             K = rng.choice([1, 2, 2, 3, 3, 4] + ([5, 6] if big_dims else []))
@@ -596,7 +680,10 @@ class Gen:
         if dims is not None:
             Nr, Nt, Ns = [list(x) for x in dims]
         ext = rng.chance(0.5) if ext is None else ext
-        NtE = [rng.randint(1, 2) for _ in range(rng.choice([1, 1, 2, 3]))] if ext else []
+        if NtE is not None and ext:
+            NtE = list(NtE)
+        else:
+            NtE = [rng.randint(1, 2) for _ in range(rng.choice([1, 1, 2, 3]))] if ext else []
         ntot = sum(Nt)
         big = self.cmat(sum(Nr), ntot + sum(NtE), 'gint' if exact else 'gauss')
         if kind == 'rint':
@@ -649,9 +736,51 @@ class Gen:
         case = {'K': K, 'Nr': Nr, 'Nt': Nt, 'NtE': NtE, 'Ns': Ns, 'ext': bool(ext), 'kind': kind,
                 'big': enc(big), 'pl': pl, 'ple': ple, 'noise': noise, 'pe': pe,
                 'F': [enc(f) for f in F], 'FJ': [enc(f) for f in FJ], 'U': [enc(u) for u in U],
-                'P': P, 'scale': scale, 'dtype': 'complex',
-                'as_list': rng.chance(0.2), 'set_W': rng.chance(0.3)}
+                'P': P, 'scale': scale, 'dtype': rng.choice(['int', 'float', 'complex']) if kind == 'rint' else 'complex',
+                'as_list': rng.chance(0.2), 'set_W': rng.chance(0.3),
+                'ntype': 'float', 'petype': 'float', 'ptype': 'float'}
+        if retype:
+            self.retype(case)
         return case
+
+    def retype(self, c):
+        """draw the numeric TYPE of the noise variance, the external power and the transmit powers (Python
+        int/float/bool, numpy integers and floats of several widths); values are moved to ones the type
+        represents exactly, so that first principles are evaluated on exactly what the code is given"""
+        rng = self.rng
+
+        def scalar(v, t):
+            if t in ('int', 'np.int32', 'np.int64'):
+                return 0 if v == 0 else rng.choice([1, 2, 3, 7])
+            if t == 'bool':
+                return 0 if v == 0 else 1
+            if t == 'np.float16':
+                return float(np.float16(min(max(v, 1e-3), 1e3))) if v else 0.0
+            if t == 'np.float32':
+                return float(np.float32(v))
+            return float(v)
+        if c['noise'] is not None:
+            c['ntype'] = rng.choice(NUMTYPES)
+            c['noise'] = scalar(c['noise'], c['ntype'])
+        if c['ext'] and c['pe'] is not None:
+            c['petype'] = rng.choice(NUMTYPES)
+            c['pe'] = scalar(c['pe'], c['petype'])
+        if c['P'] is not None:
+            pt = rng.choice(['float', 'float', 'int', 'np.int32', 'np.float32', 'list', 'scalar:int', 'scalar:float',
+                             'scalar:np.float32', 'scalar:np.int64'])
+            K = c['K']
+            if pt in ('int', 'np.int32'):
+                c['P'] = [rng.choice([1, 2, 4, 9]) for _ in range(K)]
+            elif pt == 'np.float32':
+                c['P'] = [rng.choice([0.25, 1.0, 4.0, 2.25, 9.0]) for _ in range(K)]
+            elif pt in ('scalar:int', 'scalar:np.int64'):
+                c['P'] = [rng.choice([1, 2, 4])] * K
+            elif pt == 'scalar:np.float32':
+                c['P'] = [rng.choice([0.25, 2.25, 4.0])] * K
+            elif pt == 'scalar:float':
+                c['P'] = [float(c['P'][0])] * K
+            c['ptype'] = pt
+        return c
 
     def zero_case(self):
         """exact scenarios whose denominator vanishes: a lone stream without noise, or a
@@ -693,6 +822,13 @@ def branches_of(ctx, case):
     if case['ext']:
         ctx.branch('pe:default' if case['pe'] is None else 'pe:zero' if case['pe'] == 0.0 else 'pe:pos')
     ctx.branch('kind:' + case['kind'])
+    ctx.branch('dtype:' + case.get('dtype', 'complex'))
+    if case['noise'] is not None:
+        ctx.branch('noise-type:' + (case.get('ntype') or 'float'))
+    if case['ext'] and case['pe'] is not None:
+        ctx.branch('pe-type:' + (case.get('petype') or 'float'))
+    if case['P'] is not None:
+        ctx.branch('P-type:' + (case.get('ptype') or 'float'))
 
 
 # ------------------------------------------------------------ correspondence
@@ -706,7 +842,7 @@ def base_tokens(case):
     else:
         rows = [list(case['pl'][k]) + list(case['ple'][k] if case['ext'] else []) for k in range(case['K'])]
         toks.append('pl=' + fline(rows))
-    toks.append('noise=' + ('none' if case['noise'] is None else core.f2s(case['noise'])))
+    toks.append('noise=' + ('none' if case['noise'] is None else core.f2s(noise_value(case))))
     return toks
 
 
@@ -721,7 +857,7 @@ def chan_line(case, jp):
 def solver_line(case, full_W_H):
     _, F, _, _ = arrays(case)
     toks = ['solver'] + base_tokens(case) + ['mode=ic', 'F=' + cline_many(F),
-                                            'P=' + ('none' if case['P'] is None else fline(case['P'])),
+                                            'P=' + ('none' if case['P'] is None else fline(p_values(case))),
                                             'WH=' + cline_many(full_W_H)]
     return ' '.join(toks)
 
